@@ -145,9 +145,9 @@ func crashScenario(spec *crashSpec) *Scenario {
 							mu.Unlock()
 							i := i
 							track(1, m.Go(fmt.Sprintf("readB.%d", s.StreamIdentifier()), func() {
-								if i == 0 {
-									_ = s.SetReadDeadline(time.Now().Add(150 * time.Second))
-								}
+								// far read deadlines on every stream, also on the one the peer
+								// resets (its deadline goroutine must not outlive the association)
+								_ = s.SetReadDeadline(time.Now().Add(time.Duration(150-i) * time.Second))
 								buf := make([]byte, 4096)
 								for {
 									_, _, err := s.ReadSCTP(buf)
@@ -193,6 +193,23 @@ func crashScenario(spec *crashSpec) *Scenario {
 						m.S.Yield()
 					}
 				}))
+				// a second blocking writer on another stream: two goroutines wait for the one
+				// "writable" notification
+				if s3, err := a.OpenStream(3, PayloadTypeWebRTCBinary); err == nil {
+					mu.Lock()
+					m.streamsSeen = append(m.streamsSeen, s3)
+					mu.Unlock()
+					track(0, m.Go("writeA.3", func() {
+						for i := 0; i < 4; i++ {
+							_, err := s3.WriteSCTP(payload(3, i, 280), PayloadTypeWebRTCBinary)
+							if err != nil {
+								noteErr("writeA.3", err)
+								return
+							}
+							m.S.Yield()
+						}
+					}))
+				}
 				track(0, m.Go("resetA.2", func() {
 					if _, err := s2.WriteSCTP(payload(2, 0, 40), PayloadTypeWebRTCBinary); err != nil {
 						noteErr("writeA.2", err)
@@ -212,6 +229,39 @@ func crashScenario(spec *crashSpec) *Scenario {
 			track(0, m.Go("sessA", func() { session(0) }))
 			track(1, m.Go("sessB", func() { session(1) }))
 
+			// the prober: in the instant the read loop of the terminated side has finished its
+			// teardown the association accepts no new work (a stream opened then would never
+			// be unregistered: its reader hangs for ever)
+			pside := sideOf(spec.X)
+			probe := m.Go("probe", func() {
+				me := m.S.Cur()
+				m.S.SetUrgent(me, true)
+				ok := m.WaitUntil("readloop-ended", 190*time.Second, func() bool {
+					a := m.As[pside]
+					if a == nil {
+						return false
+					}
+					select {
+					case <-a.readLoopCloseCh:
+						return true
+					default:
+						return false
+					}
+				})
+				m.S.SetUrgent(me, false)
+				if !ok {
+					return
+				}
+				ls, err := m.As[pside].OpenStream(77, PayloadTypeWebRTCBinary)
+				if err != nil {
+					return
+				}
+				m.Failf("teardown.open", "OpenStream succeeded on side %d after its read loop had finished the teardown (state %s)", pside, getAssociationStateString(m.As[pside].getState()))
+				mu.Lock()
+				m.streamsSeen = append(m.streamsSeen, ls)
+				mu.Unlock()
+			})
+			_ = probe
 			// the crasher
 			var reached bool
 			if spec.AtStep > 0 {
